@@ -147,7 +147,10 @@ Definition pc_check (c : pcv) (w : written) (r : rd_pc) : nat :=
                  | _ => match r with RPcErr _ => true | _ => false end
                  end in
   let ok := negb (pc_admissibleb c)
-            || match r with RPc c' => pcv_core_eqb c' c | _ => false end in
+            || match r with
+               | RPc c' => pcv_core_eqb c' c && meas_eqb (pv_measures c') (pc_measures_after c)
+               | _ => false
+               end in
   code_of same ok.
 
 (* ---------------------------------------------------------------- lattices *)
@@ -171,7 +174,9 @@ Definition lat_check (objs attrs : list str) (L : latv) (w : written) (r : rd_la
   let ok := negb (lat_admissibleb objs attrs L)
             || match r with
                | RLat cs' ch' t' b' =>
-                   list_eqb_g conceptv_core_eqb cs' (lv_concepts L)
+                   list_eqb_g (fun c' c => conceptv_core_eqb c' c
+                                           && meas_eqb (concept_measures c') (concept_measures_after c))
+                              cs' (lv_concepts L)
                    && children_eqb ch' (lv_children L)
                    && Nat.eqb t' (lv_top L) && Nat.eqb b' (lv_bottom L)
                | _ => false
